@@ -16,6 +16,7 @@ import (
 	"io"
 	"math/rand"
 	"net"
+	"net/netip"
 	"sort"
 	"strings"
 	"time"
@@ -27,6 +28,7 @@ import (
 	"github.com/mycoria/mycoria/frame"
 	"github.com/mycoria/mycoria/m"
 	"github.com/mycoria/mycoria/peering"
+	"github.com/mycoria/mycoria/state"
 
 	"verifharness/internal/linkworld"
 	"verifharness/internal/mesh"
@@ -54,7 +56,7 @@ type outcome struct {
 }
 
 func mkNode(w *world.World, name string, idx int, uni, sec string) *world.Node {
-	ids := mesh.Identities(2)
+	ids := mesh.Identities(3)
 	return w.NewNode(name, world.NodeOpts{ID: ids[idx], Cfg: config.Store{Router: config.Router{Universe: uni, UniverseSecret: sec}}})
 }
 
@@ -442,6 +444,238 @@ func insider(rng *rand.Rand, challenge, proof string, mHasSecret bool) (register
 	return registered, detail
 }
 
+func writeRaw(conn net.Conn, raw []byte) error {
+	out := append([]byte{byte((len(raw) + 2) >> 8), byte(len(raw) + 2)}, raw...)
+	_ = conn.SetWriteDeadline(time.Now().Add(2 * time.Second))
+	_, err := conn.Write(out)
+	return err
+}
+
+// relay (HandshakeRelay.tla): M sits between a real victim V and a real honest router P, in a handshake with both at the
+// same time.  It hands P's request to V unchanged, puts a challenge of its choice (V's, or a fresh one) into its own
+// request to P, and hands V either P's response / ack (signed by P, addressed to M) or its own.  P never speaks on V's
+// connection, so V must not register a link to P.
+func relay(rng *rand.Rand, vrole, prole, challenge, respFrom, ackFrom string) (registered bool, detail string) {
+	w := world.NewWorld()
+	v := mkNode(w, "V", 0, "u", "")
+	mn := mkNode(w, "M", 1, "u", "")
+	p := mkNode(w, "P", 2, "u", "")
+	c1a, c1b := net.Pipe()
+	c2a, c2b := net.Pipe()
+	defer c1a.Close()
+	defer c2a.Close()
+	url, _ := m.ParsePeeringURL("tcp://127.0.0.1:47369")
+	type ret struct {
+		l   peering.Link
+		err error
+	}
+	setup := func(n *world.Node, conn net.Conn, outgoing bool) chan ret {
+		done := make(chan ret, 1)
+		go func() {
+			defer func() {
+				if r := recover(); r != nil {
+					done <- ret{nil, fmt.Errorf("panic: %v", r)}
+				}
+			}()
+			l, err := n.Peer.VerifSetupLink(conn, url, outgoing)
+			done <- ret{l, err}
+		}()
+		return done
+	}
+	vdone := setup(v, c1b, vrole == "client")
+	pdone := setup(p, c2b, prole == "client")
+	finish := func(step string, err error) (bool, string) {
+		_ = c1a.Close()
+		_ = c2a.Close()
+		reg := false
+		det := fmt.Sprintf("%s: %v", step, err)
+		select {
+		case r := <-vdone:
+			reg = r.l != nil && r.err == nil && v.Peer.GetLink(p.ID.IP) != nil
+			det += fmt.Sprintf("; victim: %v", r.err)
+			if r.l != nil {
+				r.l.Close(nil)
+			}
+		case <-time.After(3 * time.Second):
+			det += "; victim set-up did not end"
+		}
+		select {
+		case r := <-pdone:
+			if r.l != nil {
+				r.l.Close(nil)
+			}
+		case <-time.After(3 * time.Second):
+		}
+		return reg, det
+	}
+	decode := func(raw []byte, into any) error {
+		fr, err := mn.Builder.ParseFrame(append([]byte(nil), raw...), nil, 0)
+		if err != nil {
+			return err
+		}
+		return cbor.Unmarshal(fr.MessageData(), into)
+	}
+	// 1. both requests
+	rawReqV, err := readMsg(c1a)
+	if err != nil {
+		return finish("read V's request", err)
+	}
+	rawReqP, err := readMsg(c2a)
+	if err != nil {
+		return finish("read P's request", err)
+	}
+	var reqV, reqP pReq
+	if err := decode(rawReqV, &reqV); err != nil {
+		return finish("decode V's request", err)
+	}
+	if err := decode(rawReqP, &reqP); err != nil {
+		return finish("decode P's request", err)
+	}
+	vpub, ppub := reqV.Address, reqP.Address
+	_ = mn.St.AddRouter(&vpub)
+	_ = mn.St.AddRouter(&ppub)
+	sessV, sessP := mn.St.GetSession(v.ID.IP), mn.St.GetSession(p.ID.IP)
+	// 2. P's request goes to V unchanged; M's own request goes to P
+	if err := writeRaw(c1a, rawReqP); err != nil {
+		return finish("forward P's request", err)
+	}
+	myChallenge := make([]byte, len(reqV.Challenge))
+	rng.Read(myChallenge)
+	if challenge == "cV" {
+		myChallenge = append([]byte(nil), reqV.Challenge...)
+	}
+	rq, _ := cbor.Marshal(&pReq{RouterVersion: "verif", Universe: "u", Address: mn.ID.PublicAddress, Challenge: myChallenge, LinkVersion: 1, TunMTU: 1400})
+	f1, err := mn.Builder.NewFrameV1(mn.ID.IP, m.RouterAddress, frame.RouterPing, nil, rq, nil)
+	if err != nil {
+		return finish("build request", err)
+	}
+	f1.SetTTL(0)
+	f1.SetSequenceTime(time.Now().Round(time.Millisecond).Add(-time.Millisecond))
+	if err := f1.SignRaw(mn.ID.PrivateKey); err != nil {
+		return finish("sign request", err)
+	}
+	f1.SetTTL(1)
+	if err := writeMsg(c2a, f1); err != nil {
+		return finish("write request to P", err)
+	}
+	// 3. both responses
+	rawRespV, err := readMsg(c1a)
+	if err != nil {
+		return finish("read V's response", err)
+	}
+	var respV pResp
+	if err := decode(rawRespV, &respV); err == nil && respV.Err != "" {
+		return finish("V refused the request", fmt.Errorf("%s", respV.Err))
+	}
+	rawRespP, err := readMsg(c2a)
+	if err != nil {
+		return finish("read P's response", err)
+	}
+	var respP pResp
+	if err := decode(rawRespP, &respP); err == nil && respP.Err != "" {
+		return finish("P refused M's request", fmt.Errorf("%s", respP.Err))
+	}
+	// 4. V gets P's response (made for M) or M's own; P gets M's honest response
+	own := func(sess *state.Session, to netip.Addr, echo []byte, withKX bool) (*frame.FrameV1, error) {
+		r := pResp{Challenge: echo}
+		if withKX {
+			kx, kxt, err := sess.Encryption().InitKeyClientStart()
+			if err != nil {
+				return nil, err
+			}
+			r.KeyExchange, r.KeyExchangeType = kx, kxt
+		}
+		rb, _ := cbor.Marshal(&r)
+		f, err := mn.Builder.NewFrameV1(mn.ID.IP, to, frame.RouterPing, nil, rb, nil)
+		if err != nil {
+			return nil, err
+		}
+		if err := f.Seal(sess); err != nil {
+			return nil, err
+		}
+		return f, nil
+	}
+	if respFrom == "P" {
+		if err := writeRaw(c1a, rawRespP); err != nil {
+			return finish("forward P's response", err)
+		}
+	} else {
+		f, err := own(sessV, v.ID.IP, reqV.Challenge, vrole == "server")
+		if err != nil {
+			return finish("build own response for V", err)
+		}
+		if err := writeMsg(c1a, f); err != nil {
+			return finish("write own response to V", err)
+		}
+	}
+	fp, err := own(sessP, p.ID.IP, reqP.Challenge, prole == "server")
+	if err != nil {
+		return finish("build response for P", err)
+	}
+	if err := writeMsg(c2a, fp); err != nil {
+		return finish("write response to P", err)
+	}
+	// 5. both acks
+	rawAckV, err := readMsg(c1a)
+	if err != nil {
+		return finish("read V's ack", err)
+	}
+	var ackV pAck
+	if err := decode(rawAckV, &ackV); err == nil && ackV.Err != "" {
+		return finish("V refused the response", fmt.Errorf("%s", ackV.Err))
+	}
+	rawAckP, err := readMsg(c2a)
+	if err != nil {
+		return finish("read P's ack", err)
+	}
+	// 6. V gets P's ack (made for M) or M's own
+	if ackFrom == "P" {
+		if err := writeRaw(c1a, rawAckP); err != nil {
+			return finish("forward P's ack", err)
+		}
+	} else {
+		a := pAck{Ack: true}
+		if vrole == "client" {
+			a.KeyExchange, a.KeyExchangeType = ackV.KeyExchange, ackV.KeyExchangeType
+			if len(a.KeyExchange) == 0 {
+				a.KeyExchange = make([]byte, 32)
+				rng.Read(a.KeyExchange)
+				a.KeyExchangeType = respV.KeyExchangeType
+			}
+		}
+		ab, _ := cbor.Marshal(&a)
+		f, err := mn.Builder.NewFrameV1(mn.ID.IP, v.ID.IP, frame.RouterPing, nil, ab, nil)
+		if err != nil {
+			return finish("build own ack", err)
+		}
+		if err := f.Seal(sessV); err != nil {
+			return finish("seal own ack", err)
+		}
+		if err := writeMsg(c1a, f); err != nil {
+			return finish("write own ack", err)
+		}
+	}
+	select {
+	case r := <-vdone:
+		registered = r.l != nil && r.err == nil && v.Peer.GetLink(p.ID.IP) != nil
+		detail = fmt.Sprint(r.err)
+		if r.l != nil {
+			r.l.Close(nil)
+		}
+	case <-time.After(3 * time.Second):
+		detail = "victim set-up did not end"
+	}
+	_ = c2a.Close()
+	select {
+	case r := <-pdone:
+		if r.l != nil {
+			r.l.Close(nil)
+		}
+	case <-time.After(3 * time.Second):
+	}
+	return registered, detail
+}
+
 func run(c *vf.Ctx) {
 	c.Rule("M: TLC on Handshake: 16 universe/secret configurations without wire fault and, for the admissible configurations (no secret / same secret), one fault (drop, corrupt, truncate, duplicate, swap, replay-from-earlier-connection with and without lost receiver state, reflect) at each of the 3 message positions of both directions, every interleaving of the two directions. R: each (configuration, plan) run as a REAL link set-up of two real routers through a proxy that applies the plan to the real bytes (quick: one random authenticated byte per corrupt plan; thorough: every authenticated byte of each of the six messages, 2 bits). T: outcomes judged by TLC. distinct = distinct (configuration, plan, byte)")
 	c.Assume("signature / hash security symbolic in the model, real in the replay", "a set-up in which a message never arrives is ended by closing the connection after 250 ms of silence")
@@ -575,6 +809,50 @@ func run(c *vf.Ctx) {
 	}
 	c.Logf("insider behaviours executed; %d events", len(events))
 
+	// ---- a participant that is in a handshake with the router it wants to pass for (HandshakeRelay)
+	for _, hc := range []struct {
+		cfg  string
+		want string
+	}{{"HandshakeRelay_TRUE.cfg", ""}, {"HandshakeRelay_FALSE.cfg", "NoLinkWithoutProof"}} {
+		hres, err := c.TLC("HandshakeRelay", hc.cfg, vf.TLCOpts{Workers: 1})
+		if err != nil {
+			c.Fatal("M relay %s: %v", hc.cfg, err)
+		}
+		c.AddModel(hres.Distinct, hres.Generated)
+		if hres.Violated != hc.want {
+			c.Broken("M relay %s: expected violated=%q, TLC says %q", hc.cfg, hc.want, hres.Violated)
+		}
+		if hc.want != "" {
+			continue
+		}
+		type ra struct {
+			Name      string `json:"name"`
+			VRole     string `json:"vrole"`
+			PRole     string `json:"prole"`
+			Challenge string `json:"challenge"`
+			Resp      string `json:"resp"`
+			Ack       string `json:"ack"`
+		}
+		n := 0
+		for _, e := range hres.Edges {
+			var a ra
+			if json.Unmarshal(e.Act, &a) != nil || a.Name != "relay" {
+				continue
+			}
+			for rep := 0; rep < c.Pick(1, 10); rep++ {
+				reg, detail := relay(r.rng, a.VRole, a.PRole, a.Challenge, a.Resp, a.Ack)
+				c.Eval(1)
+				n++
+				c.Distinct(fmt.Sprintf("relay|%v|%d", a, rep))
+				events = append(events, map[string]any{"ev": "relay", "vrole": a.VRole, "prole": a.PRole, "challenge": a.Challenge, "resp": a.Resp, "ack": a.Ack, "registered": reg, "detail": detail})
+			}
+		}
+		if n < 32 {
+			c.Broken("relay: only %d of the 32 cases of HandshakeRelay were executed", n)
+		}
+		c.Stage("R-relay", map[string]any{"cases": n})
+	}
+
 	for len(events) > 0 {
 		rejectAt, inv, tres, err := c.TraceCheck("Handshake_Trace", "Handshake_Trace.cfg", events, vf.TLCOpts{Timeout: 20 * time.Minute})
 		if err != nil {
@@ -588,6 +866,12 @@ func run(c *vf.Ctx) {
 		ev := events[rejectAt-1].(map[string]any)
 		what := "the outcome violates the handshake rules"
 		key := vf.Key(ev["op"], ev["dir"], ev["idx"])
+		if ev["ev"] == "relay" {
+			key = vf.Key("relay", ev["vrole"], ev["challenge"], ev["resp"], ev["ack"])
+			c.Violation(key, fmt.Sprintf("a link to a router that never spoke on the connection was registered: its response / ack, made for another router in a handshake running at the same time, was accepted: %v", ev), ev, nil)
+			events = events[rejectAt:]
+			continue
+		}
 		if ev["ev"] == "insider" {
 			key = vf.Key("insider", ev["challenge"], ev["proof"], ev["mhassecret"])
 			what = "a router that speaks the handshake itself without knowing the universe secret was registered (or one that knows it was refused)"
